@@ -7,7 +7,9 @@ spec/BigIntTest.tla (the limb arithmetic against TLC's native arithmetic).
 
 Binding A: TLC explores Lib.tla and prints, for every small argument tuple of
 every function family, the expected result; each is replayed on the
-interpreter (lists and sets, every permutation of every multiset).
+interpreter (lists and sets, every permutation of every multiset), once with
+the modules required unqualified and once in the legacy base environment,
+where the same names are bound by modules/legacy.ckl.
 Binding B: random lists/sets up to length 8 (duplicates, 1 versus 1.0), ints
 up to 2^80 and the whole word/shift grid are run through the interpreted
 functions; every call is logged with what it returned and the log is
@@ -167,10 +169,16 @@ def key_of(x):
 
 # ------------------------------------------------------------------ the code
 class Impl:
-    def __init__(self):
-        self.it = Interpreter(True, False)
-        for m in MODULES:
-            self.it.interpret(f"require {m} unqualified", "c19")
+    """legacy=False: Interpreter(True, False) + `require M unqualified` for the modules of the
+    property; legacy=True: the legacy base environment as it comes (Interpreter(True, True)),
+    where all of these functions are meant to exist unqualified."""
+
+    def __init__(self, legacy=False):
+        self.legacy = legacy
+        self.it = Interpreter(True, legacy)
+        if not legacy:
+            for m in MODULES:
+                self.it.interpret(f"require {m} unqualified", "c19")
         self.n = 0
 
     def call(self, src):
@@ -266,20 +274,31 @@ def canon(o):
     return ("val", o[1])
 
 
+ENVS = (False, True)          # the environments every law is replayed in (legacy flag)
+
+
+def env_tag(legacy):
+    return "legacy: " if legacy else ""
+
+
 class Checker:
-    def __init__(self, run):
+    def __init__(self, run, envs=ENVS):
         self.run = run
-        self.impl = Impl()
+        self.impls = [Impl(legacy) for legacy in envs]
+        self.impl = self.impls[0]
         self.nchecks = 0
 
     def expect(self, src, want, cat):
-        self.nchecks += 1
-        o = self.impl.call(src)
-        ok, note = fits(o, want)
-        if not ok:
-            self.run.violation(src, f"{cat}: expected {json.dumps(want)[:200]} got {show(o)} {note}",
-                               {"kind": "expect", "src": src, "want": want, "cat": cat})
-        return o
+        """the call `src` must give `want` in every environment (a violation in the legacy
+        environment has the key 'legacy: ' + src)"""
+        for impl in self.impls:
+            self.nchecks += 1
+            o = impl.call(src)
+            ok, note = fits(o, want)
+            if not ok:
+                tag = env_tag(impl.legacy)
+                self.run.violation(tag + src, f"{cat}: {tag}expected {json.dumps(want)[:200]} got {show(o)} {note}",
+                                   {"kind": "expect", "src": src, "want": want, "cat": cat, "legacy": impl.legacy})
 
     def drift_unless(self, src, want, kind):
         self.nchecks += 1
@@ -304,13 +323,9 @@ def check_pair(ck, r):
     ck.expect(f"pairs({A})", {"t": "seqseq", "v": r["pairs"]}, "textbook")
     ck.expect(f"grouped({A})", {"t": "seqseq", "v": r["grouped"]}, "textbook")
     for k in (1, 2, 3):
-        want = {"t": "seqseq", "v": r["chunks"][k - 1]}
-        if la:
-            ck.expect(f"chunks({A}, {k})", want, "textbook")
-        else:
-            # chunks of an empty list: no piece (reference) or one empty piece;
-            # the statement does not decide
-            ck.drift_unless(f"chunks({A}, {k})", want, "chunks-of-empty-list")
+        # (the empty list included: the textbook definition - Concat(pieces) = list, every piece
+        # non-empty, LibOps!Chunks / Lib!StructLaws - gives no piece for it)
+        ck.expect(f"chunks({A}, {k})", {"t": "seqseq", "v": r["chunks"][k - 1]}, "textbook")
 
 
 def check_flat(ck, r):
@@ -352,24 +367,27 @@ def check_perm(ck, r):
             want = {"t": "num", "n": r[f]["n"], "d": r[f]["d"]}
         else:
             want = {"t": "key", "key": r[f], "numeric": numeric}
-        first = None
-        for p in r["perms"]:
-            src = f"{f}({lits(p)})"
-            ck.nchecks += 1
-            o = ck.impl.call(src)
-            if first is None:
-                first = (src, o)
-            elif canon(o) != canon(first[1]):
-                ck.run.violation(f"{src} vs {first[0]}",
-                                 f"perm-variance: {src} = {show(o)} but {first[0]} = {show(first[1])}",
-                                 {"kind": "perm", "f": f, "p": p, "q": r["perms"][0]})
-            ok, note = fits(o, want)
-            if not ok:
-                if STRICT_STAT_VALUES or o[0] == "host":
-                    ck.run.violation(src, f"definition: expected {json.dumps(want)} got {show(o)} {note}",
-                                     {"kind": "expect", "src": src, "want": want, "cat": "definition"})
-                else:
-                    ck.run.drift("stat-value-vs-reference", {"src": src, "got": show(o), "reference": want})
+        for impl in ck.impls:
+            tag = env_tag(impl.legacy)
+            first = None
+            for p in r["perms"]:
+                src = f"{f}({lits(p)})"
+                ck.nchecks += 1
+                o = impl.call(src)
+                if first is None:
+                    first = (src, o)
+                elif canon(o) != canon(first[1]):
+                    ck.run.violation(f"{tag}{src} vs {first[0]}",
+                                     f"perm-variance: {tag}{src} = {show(o)} but {first[0]} = {show(first[1])}",
+                                     {"kind": "perm", "f": f, "p": p, "q": r["perms"][0], "legacy": impl.legacy})
+                ok, note = fits(o, want)
+                if not ok:
+                    if STRICT_STAT_VALUES or o[0] == "host":
+                        ck.run.violation(tag + src, f"definition: {tag}expected {json.dumps(want)} got {show(o)} {note}",
+                                         {"kind": "expect", "src": src, "want": want, "cat": "definition",
+                                          "legacy": impl.legacy})
+                    else:
+                        ck.run.drift("stat-value-vs-reference", {"src": tag + src, "got": show(o), "reference": want})
     if numeric:
         for f in ("sum", "prod"):
             want = {"t": "num", "n": r[f]["r"]["n"], "d": r[f]["r"]["d"], "int": r[f]["int"], "exact": True}
@@ -494,7 +512,7 @@ def plan_events(rng, n_each):
         for op in ("unique", "reverse", "pairs", "grouped", "enumerate"):
             P.append({"op": op, "a": lst(pl)})
         P.append({"op": "zip", "a": lst(pl), "b": lst(pl)})
-        P.append({"op": "chunks", "a": lst(pl, 1, 8), "n": rng.randint(1, 9)})
+        P.append({"op": "chunks", "a": lst(pl, 0, 8), "n": rng.randint(1, 9)})
         items = []
         for _i in range(rng.randint(0, 6)):
             c = rng.random()
@@ -559,6 +577,10 @@ def plan_events(rng, n_each):
         v = bigint()
         P.append({"op": "abs", "a": v, "b": 0, "k": 0})
         P.append({"op": "sign", "a": v, "b": 0, "k": 0})
+    for a in ([], [{"k": "int", "v": 1}], [{"k": "int", "v": 1}, {"k": "dec", "v": 2}, {"k": "str", "v": 1}]):
+        for n in (1, 3):                       # the empty list and lists that fit into one piece
+            P.append({"op": "chunks", "a": a, "n": n})
+        P.append({"op": "reverse", "a": a})
     for a, k in ((3, 40), (10, 400), (2, 100), (7, 64), (-3, 41), (0, 0), (0, 5), (1 << 80, 3), (-(1 << 80), 2)):
         P.append({"op": "pow", "a": a, "b": 0, "k": k})
     for a, b in ((0, 0), (0, 5), (5, 0), (0, -5), (-5, 0), (4, -6), (-4, 6), (-4, -6),
@@ -697,7 +719,7 @@ def validate(run, events, srcs, outs, plans):
             run.drift("stat-value-vs-reference", {"src": srcs[k], "got": show(outs[k])})
             continue
         run.violation(srcs[k], f"{cat}: Lib_Trace rejects the recorded result {show(outs[k])}",
-                      {"kind": "trace-call", "plan": plans[k]})
+                      {"kind": "trace-call", "plan": plans[k][0], "legacy": plans[k][1]})
     for b in res.records("DRIFT"):
         k = b["l"] - 1
         run.drift("shift-count>=32", {"src": srcs[k], "got": show(outs[k])})
@@ -718,16 +740,21 @@ def category(op):
     return "textbook"
 
 
-def record_and_validate(run, plans):
-    impl = Impl()
-    events, srcs, outs = [], [], []
-    for p in plans:
-        e, src, o = observe(impl, p)
-        events.append(e)
-        srcs.append(src)
-        outs.append(o)
-    res = validate(run, events, srcs, outs, plans)
-    return impl.n, events, srcs, res
+def record_and_validate(run, plans, envs=ENVS):
+    """the planned calls are run and recorded in every environment (the legacy ones keyed
+    'legacy: ' + call) and validated as one trace"""
+    events, srcs, outs, plist, ncalls = [], [], [], [], 0
+    for legacy in envs:
+        impl = Impl(legacy)
+        for p in plans:
+            e, src, o = observe(impl, p)
+            events.append(e)
+            srcs.append(env_tag(legacy) + src)
+            outs.append(o)
+            plist.append((p, legacy))
+        ncalls += impl.n
+    res = validate(run, events, srcs, outs, plist)
+    return ncalls, events, srcs, res
 
 
 def probe_drift(run, impl):
@@ -737,7 +764,10 @@ def probe_drift(run, impl):
         o = impl.call(src)
         if not (o[0] == "val" and o[1] == ref):
             run.drift("bitwise-outside-0..2^32-1", {"src": src, "got": show(o), "two's complement reading": ref})
-    for src in ("pow(2, -1)", "prod([])", "range(0, 5, 0)"):
+    # pow with a negative exponent: the mathematical result is not an integer, so there is no exact
+    # integer result to equal (the code truncates: 0; pow(0, -1) is undefined and raises); chunks of a
+    # string: the statement quantifies over lists and sets
+    for src in ("pow(2, -1)", "pow(0, -1)", "prod([])", "range(0, 5, 0)", "chunks('', 3)", "chunks('abc', 5)"):
         o = impl.call(src)
         run.drift("outside-the-defined-domain", {"src": src, "got": show(o)})
 
@@ -814,7 +844,8 @@ def run(run):
                        "call texts recorded and validated by Lib_Trace; evaluations counts interpreter calls")
     run.cov["exhaustive"] = True
     run.cov["permutations_replayed"] = nperms
-    run.cov["bounds"] = {"cfg": cfg, "trace_events": len(events), "word_grid": len(WORDS), "shifts": "0..40"}
+    run.cov["bounds"] = {"cfg": cfg, "trace_events": len(events), "word_grid": len(WORDS), "shifts": "0..40",
+                         "environments": ["modules required unqualified", "legacy base environment"]}
     run.assumptions += [
         "bitwise domain: words 0..2^32-1, results unsigned 32-bit words (doc: bit_not(0) ==> 4294967295); "
         "negative or wider arguments are drift probes only",
@@ -823,7 +854,10 @@ def run(run):
         "gcd(0,0) = 0, lcm(x,0) = 0",
         "mean/median/median_low/median_high/min/max: order dependence is the stated violation; a value that "
         "differs from the textbook definition is reported as 'definition:' (STRICT_STAT_VALUES)",
-        "chunks of an empty list, prod([]), range with step 0 and chunk sizes < 1 are not compared",
+        "prod([]), range with step 0, chunk sizes < 1, chunks of a string and pow with a negative exponent are "
+        "not compared (drift probes); chunks of an empty list is compared: no piece",
+        "every law is replayed in two environments: Interpreter(True, False) + `require M unqualified` and the "
+        "legacy base environment Interpreter(True, True) as it comes (keys 'legacy: ...')",
         "decimals in lists are multiples of 0.5 (exact doubles); mean is compared with 1e-9 relative "
         "tolerance when the exact mean is not a dyadic rational, exactly otherwise",
         "lists mix ints, decimals and one-letter strings; order statistics only on all-numeric or all-string lists",
@@ -832,19 +866,20 @@ def run(run):
 
 def replay(run, case):
     kind = case["kind"]
+    envs = (bool(case.get("legacy", False)),)
     if kind == "expect":
-        Checker(run).expect(case["src"], case["want"], case["cat"])
+        Checker(run, envs).expect(case["src"], case["want"], case["cat"])
     elif kind == "word":
         o = Impl().call(case["src"])
         if not (o[0] == "val" and isinstance(o[1], int) and 0 <= o[1] < T32):
             run.violation(case["src"], f"bitwise: result is not a 32-bit word: {show(o)}", case)
     elif kind == "perm":
-        impl = Impl()
+        impl = Impl(envs[0])
         s1, s2 = f"{case['f']}({lits(case['p'])})", f"{case['f']}({lits(case['q'])})"
         o1, o2 = impl.call(s1), impl.call(s2)
         if canon(o1) != canon(o2):
             run.violation(f"{s1} vs {s2}", f"perm-variance: {s1} = {show(o1)} but {s2} = {show(o2)}", case)
     elif kind == "trace-call":
-        record_and_validate(run, [case["plan"]])
+        record_and_validate(run, [case["plan"]], envs)
     else:
         raise MachineryError("unknown replay case")
